@@ -37,7 +37,9 @@ CFG = dict(
              "first ref only / last ref only), for fetch (one glob refspec and exact refspecs), push (both argument orders) "
              "and pull (two refspecs, fetch half judged per ref), and the converse (one old value, different new commits); "
              "each ref is judged on its own old/new pair (C10_frame); quick keeps a hashed 1/12..1/16 plus always-run "
-             "witnesses; witnesses: a branch fetched / pushed onto an existing tag (descendant commit, no force: must be refused) and a tag "
+             "witnesses; witnesses: first pull of a branch whose remote-tracking ref already exists (fetch first, "
+             "then pull; up to date / behind) x merge modes - heads/BRANCH must be created (oracle clause "
+             "pull-branch-not-created + C10_pull_creates_branch); a branch fetched / pushed onto an existing tag (descendant commit, no force: must be refused) and a tag "
              "onto an existing branch, glob fetch with mixed outcomes and uncovered "
              "tags, short-ref glob (panicked before fix 598c9ec), multi-item push with deletes under denyDeletes/denyNonFF, missing push source, "
              "pull-new-branch-glob; random: 3..10-commit DAGs, 6 ref names, multi-ref fetch (glob + tag + custom specs) "
